@@ -195,6 +195,9 @@ def run(ck):
     for sh in shapes(3) + (shapes(4) if ck.tier == 'thorough' else [[None, 0, 1, 2]]): check_get_until_root(ck, sh)
     check_connect(ck)
     check_dual(ck)
+    # how RRTPlanner hands its settings to dual_rrt_connect (acceptance test, sampler, start/goal, the CONFIGURED step and try budget, the stop flag): shared with C12
+    from . import c12
+    c12.check_rrt_wiring(ck, case=lambda m=None: dict(clause='extend'))
 
 if __name__ == '__main__':
     main(run, 'C13')
